@@ -90,7 +90,9 @@ Stored(s) == DOMAIN s
 
 NoRec == [op |-> "-", pp |-> FALSE, st |-> "-", only |-> FALSE, src |-> "-", method |-> "-",
           process |-> FALSE, keepMean |-> FALSE, meanArg |-> "-", status |-> "ok",
-          name |-> "-", save |-> FALSE, toks |-> <<>>, res |-> Absent, aux |-> Absent, names |-> {}]
+          name |-> "-", save |-> FALSE, toks |-> <<>>, res |-> Absent, aux |-> Absent, names |-> {},
+          bound |-> {}]      \* bound: the names this call is asked to (re)bind; every other stored
+                             \* field must stay exactly as it is
 NoChk == [srcE |-> Absent, data |-> Absent]
 
 Calls == Len(SelectSeq(hist, LAMBDA r : r.op \in {"call", "getmean", "vario"}))
@@ -115,7 +117,8 @@ PlainCall(pp, st) ==
          e   == Both(PushAll(raw, PostIf(cfg, pp)))
      IN  Step(Put(store, st, "field", e),
               [NoRec EXCEPT !.op = "call", !.pp = pp, !.st = st, !.name = NameOf(st, "field"),
-                            !.save = Saves(st), !.res = e])
+                            !.save = Saves(st), !.res = e,
+                            !.bound = IF Saves(st) THEN {NameOf(st, "field")} ELSE {}])
 
 (* the conditioning values are detrended, normalised and freed of the mean; at the
    conditioning points the raw kriging field equals them (exact interpolator) *)
@@ -131,7 +134,9 @@ KrigeCall(pp, st, only) ==
          s2 == IF only \/ ~Saves(st) THEN s1 ELSE Bind(s1, "krige_var", v)
      IN  Step(s2, [NoRec EXCEPT !.op = "call", !.pp = pp, !.st = st, !.only = only,
                                 !.name = NameOf(st, d), !.save = Saves(st), !.res = e,
-                                !.aux = IF only THEN Absent ELSE v])
+                                !.aux = IF only THEN Absent ELSE v,
+                                !.bound = IF ~Saves(st) THEN {} ELSE IF only THEN {NameOf(st, d)}
+                                          ELSE {NameOf(st, d), "krige_var"}])
 
 (* Krige.get_mean: "apply field-mean and normalizer ... neglecting a potential given trend";
    None unless the kriging system has a constant mean *)
@@ -156,7 +161,9 @@ CondCall(pp, st) ==
      IN  Step(s2, [NoRec EXCEPT !.op = "call", !.pp = pp, !.st = st, !.name = NameOf(st, "field"),
                                 !.save = Saves(st), !.res = e,
                                 \* the kriging sub-object's field is only pinned for the first call
-                                !.aux = IF Calls = 0 THEN kf ELSE Absent])
+                                !.aux = IF Calls = 0 THEN kf ELSE Absent,
+                                !.bound = IF Saves(st) THEN {NameOf(st, "field"), "raw_field", "raw_krige"}
+                                          ELSE {}])
 
 (* vario_estimate(pos, field, mean=, normalizer=, trend=) estimates on the pre-processed field *)
 VarioCall ==
@@ -204,6 +211,7 @@ Transform(m, src, st, process, keepMean) ==
                                    !.status = status, !.name = NameOf(st, src), !.save = Saves(st),
                                    \* the documented steps, uncancelled (what is done to the stored array)
                                    !.toks = IF status = "ok" THEN toks ELSE <<>>,
+                                   !.bound = IF status = "ok" /\ Saves(st) THEN {NameOf(st, src)} ELSE {},
                                    !.res = IF status = "ok" THEN e ELSE Absent]
          data     == IF status = "ok" /\ process THEN ApplyE(srcE, PreOps(cfg, keepMean))
                      ELSE IF status = "ok" THEN srcE ELSE Absent
@@ -286,4 +294,11 @@ StoreDiscipline ==
   hist # <<>> =>
      /\ (Last.save /\ Last.status = "ok" /\ Last.op \in {"call", "transform"}) => Last.name \in Last.names
      /\ (Len(hist) > 1 /\ (~Last.save \/ Last.status # "ok")) => Last.names = hist[Len(hist) - 1].names
+
+(* no call touches a stored field it was not asked to (re)bind: in particular a processed
+   transformation stored under another name (or not at all) leaves its source as it is, so a
+   second transformation of the same source starts from the same values (action property) *)
+EarlierFieldsUntouched ==
+  [][\A n \in DOMAIN store :
+        n \notin hist'[Len(hist')].bound => (n \in DOMAIN store' /\ store'[n] = store[n])]_vars
 =============================================================================
